@@ -10,7 +10,7 @@ EXPLANATION = ("R-NUM abstract interpretation of the AtomicDuration encode/decod
                "interval/expiry arithmetic (saturating); R-EXIT deadline loops report Timeout only behind `now >= deadline` and compute "
                "the deadline once; R-ENUM comparison directions in the timer heap/list; R-SLOT register-then-recheck of the timer "
                "thread's wake-up slot; R-ORDER arm/publish of timers (known finding F8)")
-EXPLANATION_2 = ('interval-list heap claim (`in_use`): heap push only with the claim, claim always pushes, pop gives the claim back before consuming, left-over / refilled lists re-claim, map removal only if empty, popped entry handled, new list reports head; timer handler injects TimedOut before resuming; timer thread runs the loop; TimerThread.wakeup taker unparks; Scheduler add/del_timer and sleep forwarding')
+EXPLANATION_2 = ('interval-list heap claim (`in_use`): heap push only with the claim, claim always pushes, pop gives the claim back before consuming, left-over / refilled lists re-claim, map removal only if empty, popped entry handled, new list reports head; timer handler injects TimedOut before resuming; timer thread runs the loop; TimerThread.wakeup taker unparks; Scheduler add/del_timer and sleep forwarding; the sleep until the next timer is corrected by a clock sample taken after the handlers ran (F29)')
 NOT_DECIDED = "real elapsed time and promptness; heap/list behaviour under concurrent add/remove"
 CONFIGS_QUICK = ["default"]
 CONFIGS_THOROUGH = ["default", "nosteal", "bare"]
